@@ -864,6 +864,15 @@ class Extractor:
         else:
             # drop field / variant attributes (D1)
             text = self._drop_inner_attrs(text, res.drops, '%s %s' % (kind, d['name']))
+        mvis = re.match(r'pub\s*\(\s*(crate|super)\s*\)', text)
+        if mvis:
+            # D4: restricted visibility of an extracted type becomes `pub` (one flat module; Verus wants datatypes with
+            # `open` accessor functions to be pub or private)
+            text = 'pub' + text[mvis.end():]
+            res.drops.append('D4 visibility `%s` of %s %s -> pub' % (mvis.group(0), kind, d['name']))
+        elif not text.startswith('pub'):
+            text = 'pub ' + text
+            res.drops.append('D4 private %s %s -> pub' % (kind, d['name']))
         if d.get('derive'):
             have = ' '.join(norm(a) for a in it.attrs if norm(a).startswith('# [ derive'))
             for dv in d['derive'].split(','):
